@@ -283,6 +283,11 @@ EnvelopeLine ==
      /\ Report("C05.envelope_no_panic", <<info, IF Has(E, "err") THEN E.err ELSE "", l>>, E.ok \/ ~Has(E, "err") \/ SubSeq(E.err, 1, 11) # "Other:Panic")
      /\ (E.ok /\ n >= 1) =>
        /\ Report("C05.envelope_ends_at_critical_point", <<info, P[n].v.rho, P[n].l.rho, l>>, FClose(P[n].v.rho, P[n].l.rho, "1e-9", FAbs(P[n].v.rho), "0"))
+       \* every entry is the point of its own slot: a point that failed is dropped, never replaced by a copy of its predecessor (temperatures strictly increase
+       \* along the bubble line and along the temperature-specified part of the dew line)
+       /\ \A k \in 1..(n - 2) :
+            ((E.kind = "bubble" \/ (E.kind = "dew" /\ 2 * (k + 2) <= E.npoints)) =>
+               Report("C12.envelope_points_are_distinct", <<info, k, P[k].v.T, P[k + 1].v.T, l>>, FLt(P[k].v.T, P[k + 1].v.T)))
        /\ \A k \in 1..(n - 1) :
             LET r == [ok |-> TRUE, v |-> P[k].v, l |-> P[k].l] IN
             /\ (E.kind \in {"bubble", "dew"} =>
